@@ -17,6 +17,6 @@ def run(ctx):
         "claims circular topology, and owns deep copies."
     )
     run_kernels(ctx, ["K11"], "C15")
-    add_guard_rule(ctx, "C15.add-guard")
-    ctor_rule(ctx, "C15.ctor")
-    getitem_rule(ctx, "C15.getitem")
+    ctx.guard(add_guard_rule, ctx, "C15.add-guard")
+    ctx.guard(ctor_rule, ctx, "C15.ctor")
+    ctx.guard(getitem_rule, ctx, "C15.getitem")
